@@ -9,6 +9,12 @@ def run(pid, tier):
         if pid in ("C02", "C11"):
             import dhcp_policy
             return dhcp_policy.check(pid, tier)
+        if pid == "C16":
+            import dns_ratelimit
+            return dns_ratelimit.check(pid, tier)
+        if pid == "C06":
+            import dns_cache
+            return dns_cache.check(pid, tier)
         if pid == "C14":
             import dns_wire
             return dns_wire.check_c14(pid, tier)
